@@ -268,8 +268,8 @@ def check_pc(ctx, table):
             if icls is None:
                 raise AnalysisError(f"core.{cname} not found")
             ar = spec["arity"]
-            grid = [(x, y) for x in (-1, 0, 1, 5) for y in ((-1, 0, 1, 5) if ar == 2 else (0,))]
-            for (x, y) in grid:
+            grid = [(x, y, tgt) for x in (-1, 0, 1, 5) for y in ((-1, 0, 1, 5) if ar == 2 else (0,)) for tgt in (33, 0)]  # line 0 is a target like any other
+            for (x, y, tgt) in grid:
                 it = C.Interp(repo, ev, C.Scenario(), ex)
                 keyR = it._hashable(EnumMember(rn.qualname, "R", rmem["R"]))
                 banks = {app: {it._hashable(EnumMember(rn.qualname, n_, v_)): [900 + 10 * app + i for i in range(16)] for n_, v_ in rmem.items()} for app in (0, 1)}
@@ -278,7 +278,7 @@ def check_pc(ctx, table):
                 pcs = {4: 20, 5: 40}
                 o = C.object_from_init(repo, ex, {"_registers": banks, "_program_counters": pcs, "_logger": _Log(),
                                                   "_subroutines": {4: C.Obj(None, {"app_id": 1}), 5: C.Obj(None, {"app_id": 0})}}, kind="self")
-                fields = {"imm": C.Imm(33)}
+                fields = {"imm": C.Imm(tgt)}
                 if ar == 1:
                     fields["reg"] = reg("R", 3)
                 else:
@@ -290,27 +290,28 @@ def check_pc(ctx, table):
                 if pcs.get(5) != 40:
                     results["others"] = False
                     why["others"] = f"{mn}: the counter of another subroutine changed to {pcs.get(5)}"
-                if want and got_pc != 33:
+                if want and got_pc != tgt:
                     results["taken"] = False
-                    why["taken"] = f"{mn} with operands ({x}, {y}): counter {got_pc}, expected the target line 33"
+                    why["taken"] = f"{mn} with operands ({x}, {y}) and target line {tgt}: counter {got_pc}, expected the target line"
                 if not want and got_pc != 21:
                     results["nottaken"] = False
                     why["nottaken"] = f"{mn} with operands ({x}, {y}): counter {got_pc}, expected 21"
-                if (got_pc == 33) != want:
+                if (got_pc == tgt) != want:
                     k_ = "unary_a" if ar == 1 else ("binary_a" if x != y or True else "binary_b")
                     results[k_] = False
-                    why[k_] = f"{mn} with R3={x}" + (f", R6={y}" if ar == 2 else "") + f" {'branches' if got_pc == 33 else 'does not branch'}"
+                    why[k_] = f"{mn} with R3={x}" + (f", R6={y}" if ar == 2 else "") + f" {'branches' if got_pc == tgt else 'does not branch'} (target line {tgt})"
                     if ar == 2:
                         results["binary_b"] = False
                         why["binary_b"] = why[k_]
         # jmp
-        it = C.Interp(repo, ev, C.Scenario(), ex)
-        pcs = {4: 20}
-        o = C.object_from_init(repo, ex, {"_registers": {}, "_program_counters": pcs, "_logger": _Log(), "_subroutines": {4: C.Obj(None, {"app_id": 1})}}, kind="self")
-        it.call_function(r[0].module, fn, [], {"subroutine_id": 4, "instr": C.Obj(core.classes["JmpInstruction"], {"imm": C.Imm(33)})}, self_obj=o)
-        if pcs.get(4) != 33:
-            results["jmp"] = False
-            why["jmp"] = f"jmp leaves the counter at {pcs.get(4)}, expected 33"
+        for tgt in (33, 0):
+            it = C.Interp(repo, ev, C.Scenario(), ex)
+            pcs = {4: 20}
+            o = C.object_from_init(repo, ex, {"_registers": {}, "_program_counters": pcs, "_logger": _Log(), "_subroutines": {4: C.Obj(None, {"app_id": 1})}}, kind="self")
+            it.call_function(r[0].module, fn, [], {"subroutine_id": 4, "instr": C.Obj(core.classes["JmpInstruction"], {"imm": C.Imm(tgt)})}, self_obj=o)
+            if pcs.get(4) != tgt:
+                results["jmp"] = False
+                why["jmp"] = f"jmp to line {tgt} leaves the counter at {pcs.get(4)}"
     except C.EvalRaise as ex_:
         for k_ in results:
             results[k_] = False
@@ -1033,6 +1034,9 @@ def run(ctx):
     # a value remembered for later calls is keyed by every argument it depends on (nqsa/memo.py)
     from .. import memo
     memo.check(ctx, "C04.K", ['netqasm.backend.executor', 'netqasm.sdk.shared_memory'])
+    # no type test that an earlier type test has already decided (a subclass tested after its base class: nqsa/shadow.py)
+    from .. import shadow
+    shadow.check(ctx, "C04.H", ['netqasm.backend.executor', 'netqasm.sdk.shared_memory'])
 
 
 X = "netqasm/backend/executor.py"
